@@ -1,7 +1,7 @@
 (* Extraction of the executable model to OCaml.  Only ExtrOcamlBasic is used:
    numbers stay Coq's positive/N/Z datatypes. *)
 From Coq Require Import ZArith List Extraction ExtrOcamlBasic.
-From IVG Require Import SF NumCodec Color Calls Decoder Encoder Render Gradient GoMath Arc.
+From IVG Require Import SF NumCodec Color Calls Decoder Encoder Render Gradient GoMath Arc Fit Generator.
 Extraction Language OCaml.
 Extraction "model.ml"
   SF.fadd SF.fsub SF.fmul SF.fdiv SF.fsqrt SF.fcompare SF.of_Z SF.convert SF.ffloor SF.fceil SF.ftrunc
@@ -15,4 +15,7 @@ Extraction "model.ml"
   Decoder.decode_items Decoder.decode_calls Decoder.decode_viewbox Decoder.disassemble Decoder.calls_of
   Encoder.enc_zero Encoder.enc_run Encoder.enc_act Encoder.enc_bytes
   Render.rinit Render.N32 Arc.rstep32 Arc.rrun32 Gradient.pix2grad Gradient.grad_at Gradient.clamp
-  GoMath.gosin GoMath.gocos GoMath.goacos.
+  GoMath.gosin GoMath.gocos GoMath.goacos
+  Fit.F32ops Fit.vb_size Fit.aspect_meet Fit.aspect_slice
+  Generator.set_gradient Generator.linear_matrix Generator.circular_matrix Generator.elliptical_matrix
+  Generator.concat Generator.mul_aff3 Generator.translate Generator.scale2.
